@@ -14,6 +14,7 @@ import KcpVerif.Lemmas.SysWedgeRepaired
 import KcpVerif.Lemmas.SysDrainReturn
 import KcpVerif.Lemmas.SysDrainReturn2
 import KcpVerif.Lemmas.SysDrainTimer2
+import KcpVerif.Lemmas.SysDrainHead3
 /-! C02 — eventual delivery: a healed network always drains the backlog. -/
 namespace KcpVerif.Props
 open KcpVerif KcpVerif.Gen KcpVerif.Kcp KcpVerif.Live
@@ -926,5 +927,45 @@ theorem C02_progress_step_lost_ack {p : Par} {s : State} {gab gba : GLink} (h : 
     (evs : List Ev) (hsm : RunSmall p.base s evs) (hnow : T1 + s.D + IB + s.D < (Sys.run s evs).now) :
     U < o p.base (Sys.run s evs).A.snd_una :=
   ret3_done h hl U R T1 IA IB hT ht h1 evs hsm hnow
+
+/-! ### the progress step for the head segment in general
+
+On the repaired model an individual ACK for the HEAD of the send buffer releases it, so the frame that
+lets `snd_una` pass `U` is any frame with `una` beyond `U` or an ACK for `U` itself (`SysC.Rel`), and B
+owes one as soon as its ack list holds an entry for `U` — whether or not it could move the segment to
+its delivery queue (`SysC.Owe`; the jitter filter keeps entries at or beyond `rcv_nxt`,
+`SysC.owe_flush`).  Hence the queue-full case needs no detour over `Recv` and WINS for the head. -/
+
+open KcpVerif.Sys KcpVerif.SysC in
+/-- **`C02_progress_step` for the head segment.**  Any consistent state (`Cons`: after any fault
+history), A's head live (`LiveInv`), B flushing at least every `IB` ms (`Tm`), A every `IA` ms.  The head
+of A's send buffer has offset `U`, was sent before, its timer is at `R`; B is not behind it
+(`U ≤ rcv_nxt` — B has delivered everything below A's head; it need NOT have the segment `U`, its queue
+may be full when the segment arrives); `T1 ≥ R + IA` bounds A's next flush (`P1H`).  Then in EVERY later
+state of the fair system whose clock is past `T1 + D + IB + D`, A's `snd_una` is beyond `U`:
+retransmitted by the first flush at or after `R`, accepted or re-acknowledged by B (the ACK entry for
+`U` is listed even if the delivery queue is full), the releasing frame flushed within `IB`, input by A
+within `D`.  Run hypothesis `RunSmallH`: fewer than 2^30 segments, `1 ≤ rcv_wnd < 2^30`. -/
+theorem C02_progress_step_head {p : Par} {s : State} {gab gba : GLink} (h : Cons p s gab gba) (hl : Live.LiveInv s.A)
+    (U R T1 IA IB : Nat) (hT : R + IA ≤ T1 ∧ T1 < R + 2 ^ 31) (ht : Tm IB s) (h1 : P1H p U R T1 IA s)
+    (evs : List Ev) (hsm : RunSmallH p.base s evs) (hnow : T1 + s.D + IB + s.D < (Sys.run s evs).now) :
+    U < o p.base (Sys.run s evs).A.snd_una :=
+  retH3_done h hl U R T1 IA IB hT ht h1 evs hsm hnow
+
+open KcpVerif.Sys KcpVerif.SysC in
+/-- **Phase D, general**: a frame that releases `U` (`una` beyond `U`, or an ACK for the head `U`) input by
+A moves `snd_una` beyond `U`. -/
+theorem C02_phase_release_arrives {p : Par} {s : State} {t0 : Nat} {frs : List Wire.Frm} {gab grest : GLink}
+    (h : Cons p s gab ((t0, frs) :: grest)) (hnw : NoWrap p.base s) (hdue : t0 ≤ s.now) (U : Nat)
+    (hU : U ≤ o p.base s.A.snd_una) (hrel : ∃ fr ∈ frs, Rel p.base U fr) :
+    U < o p.base (Sys.step s .dlvA).A.snd_una := phase_D_rel h hnw hdue U hU hrel
+
+/-! what remains of `C02_progress_step_full` / `C02_drain_full` after this:
+* the hypothesis `U ≤ rcv_nxt(B)` of `P1H` follows from `Cons.arel`, the fixpoint of the move loop
+  (`MoveFix`) and "the delivery queue is not full" (true at every `tick` under the fair reader) ONCE the
+  order of `rcv_buf` is part of the invariant — not done;
+* a head that has never been sent (`xmit = 0`, admitted by an ACK-only flush): phase A emits it at the
+  next flush (`C02_phase_retx_emitted`), the chain is the same with `R = now`;
+* zero-window probing for the send QUEUE, and the induction on outstanding + queued segments. -/
 
 end KcpVerif.Props
